@@ -406,6 +406,25 @@ def R_forcontinue(toks):
                 if [x.text for x in out[bc-2:bc]] == ["continue", ";"] and bc - 2 >= k:
                     del out[bc-2:bc]; bc -= 2; n += 1
                     continue
+                if out[k].text == "let":
+                    # `let PAT = EXPR else { continue };` REST…  becomes  `if let PAT = EXPR { REST… }`
+                    s = k + 1; els = None
+                    while s < bc and out[s].text != ";":
+                        if out[s].kind == "punct" and out[s].text in OPEN:
+                            s = match_close(out, s) + 1; continue
+                        if out[s].text == "else" and out[s+1].text == "{":
+                            els = s; s = match_close(out, s + 1) + 1; continue
+                        s += 1
+                    if els is not None and [x.text for x in out[els+2:match_close(out, els+1)]] in (["continue"], ["continue", ";"]) and out[s].text == ";":
+                        head = _mk(["if"], out[k], out[k].pre)
+                        out[k].pre = " "
+                        rest = out[s+1:bc]
+                        new = head + out[k:els] + _mk(["{"], out[els], " ") + rest + _mk(["}"], out[bc], " ")
+                        out = out[:k] + new + out[bc:]
+                        n += 1
+                        bc = k + len(new) - 1          # the `}` closing the new if-block: the region to go on in
+                        k = k + len(head) + (els - k) + 1
+                        continue
                 if out[k].text == "if":
                     m = k + 1
                     while out[m].text != "{":
@@ -833,4 +852,36 @@ def R_namedclosure(toks, arg=None):
                     out[s:s] = ins
                     i = s + len(ins); continue
         i += 1
+    return out, n
+
+def R_tailloopbreak(toks):
+    """a `loop { … }` that is the TAIL expression of the function body hands its `break E;` value straight to the caller, so
+    `break E;` becomes `return E;` there (Verus 0.2026.09.13 does not support `break` with a value). Refuses a loop body that
+    contains another loop (a `break` there would belong to the inner one)."""
+    k = _fn_kw(toks)
+    if k is None: return toks, 0
+    bo = _body_open(toks, k)
+    if bo is None: return toks, 0
+    bc = match_close(toks, bo)
+    # the last top-level item of the body must be `loop { … }` directly before the closing brace
+    if bc < 2 or toks[bc-1].text != "}": return toks, 0
+    lo = None
+    d = 0; i = bc - 1
+    # find the opening brace that matches toks[bc-1]
+    j = bo + 1
+    while j < bc:
+        if toks[j].kind == "punct" and toks[j].text in OPEN:
+            e = match_close(toks, j)
+            if e == bc - 1 and toks[j].text == "{": lo = j
+            j = e + 1; continue
+        j += 1
+    if lo is None or toks[lo-1].text != "loop": return toks, 0
+    inner = toks[lo+1:bc-1]
+    if any(t.kind == "ident" and t.text in ("loop", "while", "for") for t in inner):
+        raise ScanError("R-tailloopbreak: nested loop inside the tail loop")
+    out = list(toks); n = 0
+    for idx in range(lo + 1, bc - 1):
+        t = out[idx]
+        if t.kind == "ident" and t.text == "break" and out[idx+1].text != ";" and out[idx+1].kind != "lifetime":
+            out[idx] = _mk(["return"], t, t.pre)[0]; n += 1
     return out, n
